@@ -47,8 +47,8 @@ pub fn anim_desc_strategy() -> impl Strategy<Value = AnimDesc> {
             w_anim => (comp(), comp(), comp()).prop_map(|(a, b, c)| Some(vec![a, b, c])),
         ]
     };
-    (st(6, 1), st(6, 1), st(6, 1), st(1, 6), st(1, 6), 0u8..5, vals_strategy())
-        .prop_map(|(s0, s1, s2, s3, s4, initial_state, initial_values)| AnimDesc { states: vec![s0, s1, s2, s3, s4], initial_state, initial_values })
+    (st(6, 1), st(6, 1), st(6, 1), st(1, 6), st(1, 6), 0u8..5, vals_strategy(), 0u8..8)
+        .prop_map(|(s0, s1, s2, s3, s4, initial_state, initial_values, builder_order)| AnimDesc { states: vec![s0, s1, s2, s3, s4], initial_state, initial_values, builder_order })
 }
 
 pub fn step_strategy() -> impl Strategy<Value = Step> {
@@ -615,19 +615,19 @@ pub fn c05_judge(c: &HistCase, obs: &mut Obs) -> Result<(), String> {
 
 fn c05_fixed_configs() -> Vec<AnimDesc> {
     let kf = |pos: f32, a: Option<f32>, c: Option<i32>| KfDesc { pos, a, b: None, c, d: None, ez: None };
-    let tl = |cycle: f32, delay: f32, repeat: Rep, reverse: bool, ez: Ez, kfs: Vec<KfDesc>| TlDesc { timing: Timing { cycle, delay, repeat, reverse }, default_ez: ez, kfs };
+    let tl = |cycle: f32, delay: f32, repeat: Rep, reverse: bool, ez: Ez, kfs: Vec<KfDesc>| TlDesc { timing: Timing { cycle, delay, repeat, reverse }, default_ez: ez, kfs, order: 0 };
     let a = tl(2.0, 0.0, Rep::None, false, Ez::Linear, vec![kf(0.0, Some(0.0), Some(0)), kf(1.0, Some(100.0), Some(1000))]);
     let b = tl(4.0, 0.5, Rep::Times(1), true, Ez::OutQuad, vec![kf(0.25, Some(-50.0), None), kf(0.75, Some(50.0), Some(-500))]);
     let cc = tl(1.0, 0.0, Rep::Infinite, false, Ez::InOutSine, vec![kf(0.0, Some(10.0), None), kf(0.5, Some(20.0), None), kf(1.0, Some(10.0), None)]);
     let d = tl(3.0, 1.0, Rep::None, false, Ez::Ease, vec![kf(1.0, None, Some(77))]);
     let iv = Vals { a: 5.0, b: 6.0, c: 7, d: 8 };
     vec![
-        AnimDesc { states: vec![Some(vec![a.clone()]), Some(vec![b.clone()]), None, None, Some(vec![cc.clone()])], initial_state: 0, initial_values: iv },
-        AnimDesc { states: vec![None, Some(vec![a.clone()]), Some(vec![b.clone()]), None, None], initial_state: 0, initial_values: iv },
-        AnimDesc { states: vec![Some(vec![a.clone(), d.clone()]), None, Some(vec![cc.clone()]), None, Some(vec![b.clone()])], initial_state: 2, initial_values: iv },
-        AnimDesc { states: vec![Some(vec![b.clone()]), Some(vec![d.clone()]), None, Some(vec![a.clone()]), None], initial_state: 1, initial_values: iv },
-        AnimDesc { states: vec![Some(vec![cc.clone()]), Some(vec![cc.clone(), a.clone()]), Some(vec![d.clone()]), None, None], initial_state: 3, initial_values: iv },
-        AnimDesc { states: vec![Some(vec![a]), Some(vec![b]), Some(vec![cc]), Some(vec![d]), None], initial_state: 4, initial_values: iv },
+        AnimDesc { states: vec![Some(vec![a.clone()]), Some(vec![b.clone()]), None, None, Some(vec![cc.clone()])], initial_state: 0, initial_values: iv, builder_order: 0 },
+        AnimDesc { states: vec![None, Some(vec![a.clone()]), Some(vec![b.clone()]), None, None], initial_state: 0, initial_values: iv, builder_order: 0 },
+        AnimDesc { states: vec![Some(vec![a.clone(), d.clone()]), None, Some(vec![cc.clone()]), None, Some(vec![b.clone()])], initial_state: 2, initial_values: iv, builder_order: 0 },
+        AnimDesc { states: vec![Some(vec![b.clone()]), Some(vec![d.clone()]), None, Some(vec![a.clone()]), None], initial_state: 1, initial_values: iv, builder_order: 0 },
+        AnimDesc { states: vec![Some(vec![cc.clone()]), Some(vec![cc.clone(), a.clone()]), Some(vec![d.clone()]), None, None], initial_state: 3, initial_values: iv, builder_order: 0 },
+        AnimDesc { states: vec![Some(vec![a]), Some(vec![b]), Some(vec![cc]), Some(vec![d]), None], initial_state: 4, initial_values: iv, builder_order: 0 },
     ]
 }
 
@@ -742,9 +742,8 @@ pub fn c07(run: &mut Run) {
                 let tl = TlDesc {
                     timing: Timing { cycle, delay, repeat: Rep::None, reverse: false },
                     default_ez: Ez::Linear,
-                    kfs: vec![KfDesc { pos: 0.0, a: Some(0.0), b: None, c: Some(0), d: None, ez: None }, KfDesc { pos: 1.0, a: Some(100.0), b: None, c: Some(1000), d: None, ez: None }],
-                };
-                let desc = AnimDesc { states: vec![Some(vec![tl]), None, None, None, None], initial_state: 0, initial_values: Vals { a: 0.0, b: 0.0, c: 0, d: 0 } };
+                    kfs: vec![KfDesc { pos: 0.0, a: Some(0.0), b: None, c: Some(0), d: None, ez: None }, KfDesc { pos: 1.0, a: Some(100.0), b: None, c: Some(1000), d: None, ez: None }], order: 0 };
+                let desc = AnimDesc { states: vec![Some(vec![tl]), None, None, None, None], initial_state: 0, initial_values: Vals { a: 0.0, b: 0.0, c: 0, d: 0 }, builder_order: 0 };
                 let mut an = desc.build();
                 let tot = cycle + delay;
                 let fail = |d: String| (serde_json::json!({"index": idx, "total_s": tot, "mode": mode}), d);
@@ -801,8 +800,7 @@ pub fn c07_long_repeats(run: &mut Run) {
                 let tl = TlDesc {
                     timing: Timing { cycle, delay: 0.0, repeat: Rep::Times(n), reverse },
                     default_ez: Ez::Linear,
-                    kfs: vec![KfDesc { pos: 0.0, a: Some(0.0), b: None, c: None, d: None, ez: None }, KfDesc { pos: 1.0, a: Some(100.0), b: None, c: None, d: None, ez: None }],
-                };
+                    kfs: vec![KfDesc { pos: 0.0, a: Some(0.0), b: None, c: None, d: None, ez: None }, KfDesc { pos: 1.0, a: Some(100.0), b: None, c: None, d: None, ez: None }], order: 0 };
                 let total_s = cycle as f64 * (n as f64 + 1.0);
                 let t = total_s + k as f64 * cycle as f64;
                 let fail = |d: String| (serde_json::json!({"index": idx, "cycle": cycle, "repeat": n, "k": k, "reverse": reverse}), d);
@@ -810,7 +808,7 @@ pub fn c07_long_repeats(run: &mut Run) {
                     eo.skipped += 1;
                     continue;
                 }
-                let desc = AnimDesc { states: vec![Some(vec![tl]), None, None, None, None], initial_state: 0, initial_values: Vals { a: 0.0, b: 0.0, c: 0, d: 0 } };
+                let desc = AnimDesc { states: vec![Some(vec![tl]), None, None, None, None], initial_state: 0, initial_values: Vals { a: 0.0, b: 0.0, c: 0, d: 0 }, builder_order: 0 };
                 let mut an = desc.build();
                 an.advance(t as f32);
                 let want = k >= 0;
@@ -993,7 +991,7 @@ pub struct C06LongCase {
 }
 
 fn c06_long_judge(c: &C06LongCase, obs: &mut Obs) -> Result<(), String> {
-    let desc = AnimDesc { states: vec![Some(vec![c.tl.clone()]), None, None, None, None], initial_state: 0, initial_values: Vals { a: 1.0, b: 2.0, c: 3, d: 4 } };
+    let desc = AnimDesc { states: vec![Some(vec![c.tl.clone()]), None, None, None, None], initial_state: 0, initial_values: Vals { a: 1.0, b: 2.0, c: 3, d: 4 }, builder_order: 0 };
     let mut a = desc.build();
     let mut b = desc.build();
     let long = (1u64 << c.log2_long) as f32;
@@ -1028,7 +1026,7 @@ pub struct C06TrainCase {
 }
 
 fn c06_train_judge(c: &C06TrainCase, obs: &mut Obs) -> Result<(), String> {
-    let desc = AnimDesc { states: vec![Some(vec![c.tl.clone()]), None, None, None, None], initial_state: 0, initial_values: c.initial };
+    let desc = AnimDesc { states: vec![Some(vec![c.tl.clone()]), None, None, None, None], initial_state: 0, initial_values: c.initial, builder_order: 0 };
     let dt: f32 = [1.0f32 / 60.0, 1.0 / 144.0, 1.0 / 30.0, 0.016, 0.0005, 0.0009][c.rate as usize % 6];
     let mut a = desc.build();
     for _ in 0..c.frames {
